@@ -281,37 +281,39 @@ def linsert (l : PList) (pivot data : Bytes) (before : Bool) : Res (PList × Int
 
 /-! ### LRem -/
 
+/-- `if currentNode.prev != nil { currentNode.prev.next = currentNode.next } else { l.head = currentNode.next }`
+    (`n` is `*currentNode` as it is when the statement starts) -/
+def bypassNext (l : PList) (n : Node) : Res PList :=
+  match n.prev with                                             -- if currentNode.prev != nil {
+  | some p => do
+    let heap ← setNext l.heap p n.next                          --   currentNode.prev.next = currentNode.next
+    pure { l with heap }
+  | none => pure { l with head := n.next }                      -- } else { l.head = currentNode.next }
+
+/-- `if currentNode.next != nil { currentNode.next.prev = currentNode.prev } else { l.tail = currentNode.prev }` -/
+def bypassPrev (l : PList) (n : Node) : Res PList :=
+  match n.next with                                             -- if currentNode.next != nil {
+  | some q => do
+    let heap ← setPrev l.heap q n.prev                          --   currentNode.next.prev = currentNode.prev
+    pure { l with heap }
+  | none => pure { l with tail := n.prev }                      -- } else { l.tail = currentNode.prev }
+
 /-- the pointer surgery shared by lRemAll, lRem and LTrim (node `cur` is taken out of the chain; its own
-    `prev` / `next` are left as they are).  `currentNode.next` is read again after the first store. -/
+    `prev` / `next` are left as they are).  `*currentNode` is read again after the first store (the store
+    goes to another node's field, which could be the same node in a corrupted structure). -/
 def unlink (l : PList) (cur : Nat) : Res PList := do
   let n ← rd l.heap cur
-  let l ← match n.prev with                                     -- if currentNode.prev != nil {
-    | some p => do
-      let heap ← setNext l.heap p n.next                        --   currentNode.prev.next = currentNode.next
-      pure { l with heap }
-    | none => pure { l with head := n.next }                    -- } else { l.head = currentNode.next }
+  let l ← bypassNext l n
   let n ← rd l.heap cur
-  let l ← match n.next with                                     -- if currentNode.next != nil {
-    | some q => do
-      let heap ← setPrev l.heap q n.prev                        --   currentNode.next.prev = currentNode.prev
-      pure { l with heap }
-    | none => pure { l with tail := n.prev }                    -- } else { l.tail = currentNode.prev }
+  let l ← bypassPrev l n
   .ok { l with length := l.length - 1 }                         -- l.length--
 
 /-- the same surgery in the order lRevRem writes it (next side first) -/
 def unlinkRev (l : PList) (cur : Nat) : Res PList := do
   let n ← rd l.heap cur
-  let l ← match n.next with                                     -- if currentNode.next != nil {
-    | some q => do
-      let heap ← setPrev l.heap q n.prev                        --   currentNode.next.prev = currentNode.prev
-      pure { l with heap }
-    | none => pure { l with tail := n.prev }                    -- } else { l.tail = currentNode.prev }
+  let l ← bypassPrev l n
   let n ← rd l.heap cur
-  let l ← match n.prev with                                     -- if currentNode.prev != nil {
-    | some p => do
-      let heap ← setNext l.heap p n.next                        --   currentNode.prev.next = currentNode.next
-      pure { l with heap }
-    | none => pure { l with head := n.next }                    -- } else { l.head = currentNode.next }
+  let l ← bypassNext l n
   .ok { l with length := l.length - 1 }                         -- l.length--
 
 def lremAllLoop : Nat → PList → Option Nat → Bytes → Int → Res (PList × Int)
